@@ -35,7 +35,7 @@ def _alpha(node, keep):
     n = copy.deepcopy(node)
     seen = {}
     for x in ast.walk(n):
-        if isinstance(x, ast.Name) and x.id not in keep:
+        if isinstance(x, ast.Name) and (x.id not in keep or (x.id.startswith('_') and not x.id.startswith('__'))):
             x.id = seen.setdefault(x.id, '_%d' % len(seen))
     return src(n)
 
@@ -59,12 +59,31 @@ def has_expr(fn, text, tree=None):
         if isinstance(st, (ast.Import, ast.ImportFrom)):
             keep.update((a.asname or a.name).split('.')[0] for a in st.names)
     want = _alpha(ast.parse(text, mode='eval').body, keep)
-    return any(isinstance(n, ast.expr) and _alpha(n, keep) == want for n in ast.walk(fn))
+    fns = [fn]
+    if tree is not None:
+        from ..match import reach_private
+        fns = reach_private(tree, fn)
+    if any(isinstance(n, ast.expr) and (src(n) == text or _alpha(n, keep) == want) for f in fns for n in ast.walk(f)):
+        return True
+    # the same expression with intermediate results held in locals (or no longer held in locals)
+    from ..match import resolve_locals
+    for f in fns:
+        for n in ast.walk(f):
+            if isinstance(n, (ast.UnaryOp, ast.Compare, ast.Subscript, ast.Call)):
+                r = resolve_locals(f, n)
+                if src(r) == text or _alpha(r, keep) == want:
+                    return True
+    return False
 
 
 def anchor(rep, rel, fname, exprs, what):
     """The consumer must still contain one of the anchor expressions; otherwise the contract is stale."""
     tree = load_py(rel)
+    if not any(isinstance(n, ast.FunctionDef) and n.name == fname for n in tree.body):
+        # the function was renamed: the anchor expression identifies it
+        cands = [n for n in tree.body if isinstance(n, ast.FunctionDef) and any(has_expr(n, e, None) for e in exprs)]
+        if len(cands) == 1:
+            fname = cands[0].name
     fn = func(tree, fname, rel)
     if not any(has_expr(fn, e, tree) for e in exprs):
         raise AnalysisError('%s: %s() no longer contains `%s` - the registry contract "%s" must be re-derived'
@@ -105,7 +124,7 @@ def contracts(rep, regs, model):
     nonempty('be/banks', 'stdnum/be/iban.py', 'validate', ['not info(number)'])
     nonempty('isil', 'stdnum/isil.py', '_is_known_agency', ['bool(results[0][1])'])
     nonempty('eu/nace', 'stdnum/eu/nace.py', 'info', ['not i'], depth0_only=False)
-    nonempty('iban', 'stdnum/iban.py', 'validate', ['not info[0][1]'])
+    nonempty('iban', 'stdnum/iban.py', 'validate', ['not info[0][1]', 'not _ibandb.info(number)[0][1]'])
     # at/fa: validate() compares i.get('office') and rejects when info is empty
     anchor(rep, 'stdnum/at/tin.py', 'validate', ["i.get('office')"], 'at/fa: office name is compared')
     per_entry(rep, R['at/fa'], 'REG.consumer-key', lambda e: bool(e.props.get('office')),
@@ -185,11 +204,13 @@ def contracts(rep, regs, model):
     # iban: structure fully consumed by _struct_re and country codes are two letters
     itree = load_py('stdnum/iban.py')
     struct = None
+    from ..strabs.run import get_interp as _gi
+    sname = getattr(_gi(), 'iban_struct_name', '_struct_re')
     for n in itree.body:
-        if isinstance(n, ast.Assign) and src(n.targets[0]) == '_struct_re':
+        if isinstance(n, ast.Assign) and src(n.targets[0]) == sname:
             struct = ast.literal_eval(n.value.args[0])
     if struct is None:
-        raise AnalysisError('stdnum/iban.py: _struct_re vanished')
+        raise AnalysisError('stdnum/iban.py: the structure pattern %s vanished' % sname)
     # the structure letters iban._struct_to_re() can convert (its expressions evaluated on 1!<letter>, see sa/strabs/interp.py)
     from ..strabs.run import get_interp
     conv_keys = set(get_interp().iban_letters)
@@ -249,7 +270,7 @@ def contracts(rep, regs, model):
     per_entry(rep, reg, 'REG.consumer-isbn', lambda e: plen(e) <= 11 and e.low.isdigit() and e.high.isdigit() and e.low.isascii(),
               'prefix + group + registrant use up all 12 digits (no room for an item number) or are not ASCII digits')
     # gs1_ai: format / type keys (their grammar and codec coverage is C16)
-    anchor(rep, 'stdnum/gs1_128.py', 'info', ["info['format']", "_gs1_aidb.info(number)"], 'gs1_ai: format= and type= required')
+    anchor(rep, 'stdnum/gs1_128.py', 'info', ["info['format']", "_gs1_aidb.info(number)", "_gs1_aidb.info(number)[0]"], 'gs1_ai: format= and type= required')
     per_entry(rep, R['gs1_ai'], 'REG.consumer-key', lambda e: 'format' in e.props and 'type' in e.props, 'application identifier without format=/type=')
     from . import c16 as _c16
     mxl = _c16.max_length_evaluator()
